@@ -122,6 +122,7 @@ def analyse(text, ctx=0, skip=False, want=("roundtrip", "total", "agree", "canon
             continue
         if r[0] == "resource":
             res["stats"]["resource"] = True
+            res["fail"].setdefault("total", []).append("%s tokenizer raised %s" % (which, r[1]))
             continue
         tp = canonical_token_problems(r[1])
         if tp:
@@ -137,12 +138,14 @@ def analyse(text, ctx=0, skip=False, want=("roundtrip", "total", "agree", "canon
             continue
         if b[0] == "resource":
             res["stats"]["resource"] = True
+            res["fail"].setdefault("total", []).append("builder on %s tokens raised %s" % (which, b[1]))
             continue
         code = b[1]
         try:
             s = str(code)
         except RecursionError:
             res["stats"]["resource"] = True
+            res["fail"].setdefault("total", []).append("rendering the tree built from %s tokens raised RecursionError" % which)
             continue
         if s != text:
             res["fail"].setdefault("roundtrip", []).append("%s: rendered %r" % (which, s[:200]))
